@@ -8,11 +8,11 @@ for id in $ids; do
   wt=/tmp/vs_$id
   git -C /repo worktree add -q $wt HEAD || continue
   ( cd $wt && git apply /verif/seeded/$id/patch.diff \
-    && /venv/bin/python -m pytest -q -p no:cacheprovider --timeout=900 tests 2>&1 | tail -1 > /tmp/vs_$id.suite; \
+    && PYTHONPATH=$wt /venv/bin/python -m pytest -q -p no:cacheprovider --timeout=900 tests 2>&1 | tail -1 > /tmp/vs_$id.suite; \
     mkdir -p seeded_out/1 && sed -E "s#/tmp/seed[0-9]?_[A-Z][0-9]+#$wt#g" /verif/seeded/$id/demo.py > seeded_out/1/demo.py; \
-    /venv/bin/python seeded_out/1/demo.py >/dev/null 2>&1; echo "demo_with_patch_rc=$?" > /tmp/vs_$id.demo; \
+    PYTHONPATH=$wt /venv/bin/python seeded_out/1/demo.py >/dev/null 2>&1; echo "demo_with_patch_rc=$?" > /tmp/vs_$id.demo; \
     git checkout -q -- space_packet_parser; \
-    /venv/bin/python seeded_out/1/demo.py >/dev/null 2>&1; echo "demo_clean_rc=$?" >> /tmp/vs_$id.demo )
+    PYTHONPATH=$wt /venv/bin/python seeded_out/1/demo.py >/dev/null 2>&1; echo "demo_clean_rc=$?" >> /tmp/vs_$id.demo )
   { echo "suite with patch: $(cat /tmp/vs_$id.suite)"; cat /tmp/vs_$id.demo; } > $id/verify.log
   git -C /repo worktree remove --force $wt; rm -f /tmp/vs_$id.suite /tmp/vs_$id.demo
   echo "$id: $(tr '\n' ' ' < $id/verify.log)"
